@@ -16,6 +16,10 @@ import (
 
 func init() {
 	register(&PropertyCheck{ID: "C10", Level: "other", Run: checkC10, Canaries: []Canary{
+		{Name: "rf8-shared-writer-sets-a-flag-bit", Rule: "R10.5", Where: "(*PingReq).WriteTo", Edits: []Edit{{"packet.go", "\treturn p, nil\n}\n", "\treturn p, nil\n}\n\n// headerString returns the short readable form shared by packets\n// without variable header, e.g. PINGREQ ---- 2 bytes\nfunc headerString(fixed bits, size int) string {\n\treturn fmt.Sprintf(\"%s %v bytes\", firstByte(fixed).String(), size)\n}\n\n// fillHeaderOnly fills b from position i with a fixed header\n// announcing no remaining data. Returns the position after the\n// header.\nfunc fillHeaderOnly(b []byte, i int, fixed bits) int {\n\ti += fixed.fill(b, i)    // firstByte header\n\ti += vbint(0).fill(b, i) // remaining length none\n\treturn i\n}\n\n// writeHeaderOnly writes a packet consisting of the fixed header only\n// in one write.\nfunc writeHeaderOnly(w io.Writer, fixed bits) (int64, error) {\n\tb := make([]byte, fillHeaderOnly(_LEN, 0, fixed))\n\tfillHeaderOnly(b, 0, fixed|1)\n\tn, err := w.Write(b)\n\treturn int64(n), err\n}\n"}, {"pingreq.go", "\t\"fmt\"\n\t\"io\"\n)\n\nfunc NewPingReq() *PingReq {\n\treturn &PingReq{fixed: bits(PINGREQ)}\n}\n\ntype PingReq struct {\n\tfixed bits\n}\n\nfunc (p *PingReq) String() string {\n\treturn fmt.Sprintf(\"%s %v bytes\",\n\t\tfirstByte(p.fixed).String(),\n\t\tp.width(),\n\t)\n}\n\nfunc (p *PingReq) WriteTo(w io.Writer) (int64, error) {\n\tb := make([]byte, p.width())\n\tp.fill(b, 0)\n\tn, err := w.Write(b)\n\treturn int64(n), err\n}\n\nfunc (p *PingReq) width() int {\n\treturn p.fill(_LEN, 0)\n}\n\nfunc (p *PingReq) fill(b []byte, i int) int {\n\ti += p.fixed.fill(b, i)  // firstByte header\n\ti += vbint(0).fill(b, i) // remaining length none\n\treturn i", "\t\"io\"\n)\n\nfunc NewPingReq() *PingReq {\n\treturn &PingReq{fixed: bits(PINGREQ)}\n}\n\ntype PingReq struct {\n\tfixed bits\n}\n\nfunc (p *PingReq) String() string {\n\treturn headerString(p.fixed, p.width())\n}\n\nfunc (p *PingReq) WriteTo(w io.Writer) (int64, error) {\n\treturn writeHeaderOnly(w, p.fixed)\n}\n\nfunc (p *PingReq) width() int {\n\treturn p.fill(_LEN, 0)\n}\n\nfunc (p *PingReq) fill(b []byte, i int) int {\n\treturn fillHeaderOnly(b, i, p.fixed)"}, {"pingresp.go", "\t\"fmt\"\n\t\"io\"\n)\n\nfunc NewPingResp() *PingResp {\n\treturn &PingResp{fixed: bits(PINGRESP)}\n}\n\ntype PingResp struct {\n\tfixed bits\n}\n\nfunc (p *PingResp) String() string {\n\treturn fmt.Sprintf(\"%s %v bytes\",\n\t\tfirstByte(p.fixed).String(),\n\t\tp.width(),\n\t)\n}\n\nfunc (p *PingResp) WriteTo(w io.Writer) (int64, error) {\n\tb := make([]byte, p.width())\n\tp.fill(b, 0)\n\tn, err := w.Write(b)\n\treturn int64(n), err\n}\n\nfunc (p *PingResp) width() int {\n\treturn p.fill(_LEN, 0)\n}\n\nfunc (p *PingResp) fill(b []byte, i int) int {\n\ti += p.fixed.fill(b, i)  // firstByte header\n\ti += vbint(0).fill(b, i) // remaining length none\n\treturn i", "\t\"io\"\n)\n\nfunc NewPingResp() *PingResp {\n\treturn &PingResp{fixed: bits(PINGRESP)}\n}\n\ntype PingResp struct {\n\tfixed bits\n}\n\nfunc (p *PingResp) String() string {\n\treturn headerString(p.fixed, p.width())\n}\n\nfunc (p *PingResp) WriteTo(w io.Writer) (int64, error) {\n\treturn writeHeaderOnly(w, p.fixed)\n}\n\nfunc (p *PingResp) width() int {\n\treturn p.fill(_LEN, 0)\n}\n\nfunc (p *PingResp) fill(b []byte, i int) int {\n\treturn fillHeaderOnly(b, i, p.fixed)"}, {"undefined.go", "\treturn fmt.Sprintf(\"%s %v bytes\",\n\t\tfirstByte(p.fixed).String(), 0,\n\t)", "\treturn headerString(p.fixed, 0)"}}},
+		{Name: "rf8-shared-writer-drops-the-write-error", Rule: "R10.5", Where: "(*PingReq).WriteTo", Edits: []Edit{{"packet.go", "\treturn p, nil\n}\n", "\treturn p, nil\n}\n\n// headerString returns the short readable form shared by packets\n// without variable header, e.g. PINGREQ ---- 2 bytes\nfunc headerString(fixed bits, size int) string {\n\treturn fmt.Sprintf(\"%s %v bytes\", firstByte(fixed).String(), size)\n}\n\n// fillHeaderOnly fills b from position i with a fixed header\n// announcing no remaining data. Returns the position after the\n// header.\nfunc fillHeaderOnly(b []byte, i int, fixed bits) int {\n\ti += fixed.fill(b, i)    // firstByte header\n\ti += vbint(0).fill(b, i) // remaining length none\n\treturn i\n}\n\n// writeHeaderOnly writes a packet consisting of the fixed header only\n// in one write.\nfunc writeHeaderOnly(w io.Writer, fixed bits) (int64, error) {\n\tb := make([]byte, fillHeaderOnly(_LEN, 0, fixed))\n\tfillHeaderOnly(b, 0, fixed)\n\tn, _ := w.Write(b)\n\treturn int64(n), nil\n}\n"}, {"pingreq.go", "\t\"fmt\"\n\t\"io\"\n)\n\nfunc NewPingReq() *PingReq {\n\treturn &PingReq{fixed: bits(PINGREQ)}\n}\n\ntype PingReq struct {\n\tfixed bits\n}\n\nfunc (p *PingReq) String() string {\n\treturn fmt.Sprintf(\"%s %v bytes\",\n\t\tfirstByte(p.fixed).String(),\n\t\tp.width(),\n\t)\n}\n\nfunc (p *PingReq) WriteTo(w io.Writer) (int64, error) {\n\tb := make([]byte, p.width())\n\tp.fill(b, 0)\n\tn, err := w.Write(b)\n\treturn int64(n), err\n}\n\nfunc (p *PingReq) width() int {\n\treturn p.fill(_LEN, 0)\n}\n\nfunc (p *PingReq) fill(b []byte, i int) int {\n\ti += p.fixed.fill(b, i)  // firstByte header\n\ti += vbint(0).fill(b, i) // remaining length none\n\treturn i", "\t\"io\"\n)\n\nfunc NewPingReq() *PingReq {\n\treturn &PingReq{fixed: bits(PINGREQ)}\n}\n\ntype PingReq struct {\n\tfixed bits\n}\n\nfunc (p *PingReq) String() string {\n\treturn headerString(p.fixed, p.width())\n}\n\nfunc (p *PingReq) WriteTo(w io.Writer) (int64, error) {\n\treturn writeHeaderOnly(w, p.fixed)\n}\n\nfunc (p *PingReq) width() int {\n\treturn p.fill(_LEN, 0)\n}\n\nfunc (p *PingReq) fill(b []byte, i int) int {\n\treturn fillHeaderOnly(b, i, p.fixed)"}, {"pingresp.go", "\t\"fmt\"\n\t\"io\"\n)\n\nfunc NewPingResp() *PingResp {\n\treturn &PingResp{fixed: bits(PINGRESP)}\n}\n\ntype PingResp struct {\n\tfixed bits\n}\n\nfunc (p *PingResp) String() string {\n\treturn fmt.Sprintf(\"%s %v bytes\",\n\t\tfirstByte(p.fixed).String(),\n\t\tp.width(),\n\t)\n}\n\nfunc (p *PingResp) WriteTo(w io.Writer) (int64, error) {\n\tb := make([]byte, p.width())\n\tp.fill(b, 0)\n\tn, err := w.Write(b)\n\treturn int64(n), err\n}\n\nfunc (p *PingResp) width() int {\n\treturn p.fill(_LEN, 0)\n}\n\nfunc (p *PingResp) fill(b []byte, i int) int {\n\ti += p.fixed.fill(b, i)  // firstByte header\n\ti += vbint(0).fill(b, i) // remaining length none\n\treturn i", "\t\"io\"\n)\n\nfunc NewPingResp() *PingResp {\n\treturn &PingResp{fixed: bits(PINGRESP)}\n}\n\ntype PingResp struct {\n\tfixed bits\n}\n\nfunc (p *PingResp) String() string {\n\treturn headerString(p.fixed, p.width())\n}\n\nfunc (p *PingResp) WriteTo(w io.Writer) (int64, error) {\n\treturn writeHeaderOnly(w, p.fixed)\n}\n\nfunc (p *PingResp) width() int {\n\treturn p.fill(_LEN, 0)\n}\n\nfunc (p *PingResp) fill(b []byte, i int) int {\n\treturn fillHeaderOnly(b, i, p.fixed)"}, {"undefined.go", "\treturn fmt.Sprintf(\"%s %v bytes\",\n\t\tfirstByte(p.fixed).String(), 0,\n\t)", "\treturn headerString(p.fixed, 0)"}}},
+		{Name: "rf8-header-only-packets-share-a-writer", Silent: true, Edits: []Edit{{"packet.go", "\treturn p, nil\n}\n", "\treturn p, nil\n}\n\n// headerString returns the short readable form shared by packets\n// without variable header, e.g. PINGREQ ---- 2 bytes\nfunc headerString(fixed bits, size int) string {\n\treturn fmt.Sprintf(\"%s %v bytes\", firstByte(fixed).String(), size)\n}\n\n// fillHeaderOnly fills b from position i with a fixed header\n// announcing no remaining data. Returns the position after the\n// header.\nfunc fillHeaderOnly(b []byte, i int, fixed bits) int {\n\ti += fixed.fill(b, i)    // firstByte header\n\ti += vbint(0).fill(b, i) // remaining length none\n\treturn i\n}\n\n// writeHeaderOnly writes a packet consisting of the fixed header only\n// in one write.\nfunc writeHeaderOnly(w io.Writer, fixed bits) (int64, error) {\n\tb := make([]byte, fillHeaderOnly(_LEN, 0, fixed))\n\tfillHeaderOnly(b, 0, fixed)\n\tn, err := w.Write(b)\n\treturn int64(n), err\n}\n"}, {"pingreq.go", "\t\"fmt\"\n\t\"io\"\n)\n\nfunc NewPingReq() *PingReq {\n\treturn &PingReq{fixed: bits(PINGREQ)}\n}\n\ntype PingReq struct {\n\tfixed bits\n}\n\nfunc (p *PingReq) String() string {\n\treturn fmt.Sprintf(\"%s %v bytes\",\n\t\tfirstByte(p.fixed).String(),\n\t\tp.width(),\n\t)\n}\n\nfunc (p *PingReq) WriteTo(w io.Writer) (int64, error) {\n\tb := make([]byte, p.width())\n\tp.fill(b, 0)\n\tn, err := w.Write(b)\n\treturn int64(n), err\n}\n\nfunc (p *PingReq) width() int {\n\treturn p.fill(_LEN, 0)\n}\n\nfunc (p *PingReq) fill(b []byte, i int) int {\n\ti += p.fixed.fill(b, i)  // firstByte header\n\ti += vbint(0).fill(b, i) // remaining length none\n\treturn i", "\t\"io\"\n)\n\nfunc NewPingReq() *PingReq {\n\treturn &PingReq{fixed: bits(PINGREQ)}\n}\n\ntype PingReq struct {\n\tfixed bits\n}\n\nfunc (p *PingReq) String() string {\n\treturn headerString(p.fixed, p.width())\n}\n\nfunc (p *PingReq) WriteTo(w io.Writer) (int64, error) {\n\treturn writeHeaderOnly(w, p.fixed)\n}\n\nfunc (p *PingReq) width() int {\n\treturn p.fill(_LEN, 0)\n}\n\nfunc (p *PingReq) fill(b []byte, i int) int {\n\treturn fillHeaderOnly(b, i, p.fixed)"}, {"pingresp.go", "\t\"fmt\"\n\t\"io\"\n)\n\nfunc NewPingResp() *PingResp {\n\treturn &PingResp{fixed: bits(PINGRESP)}\n}\n\ntype PingResp struct {\n\tfixed bits\n}\n\nfunc (p *PingResp) String() string {\n\treturn fmt.Sprintf(\"%s %v bytes\",\n\t\tfirstByte(p.fixed).String(),\n\t\tp.width(),\n\t)\n}\n\nfunc (p *PingResp) WriteTo(w io.Writer) (int64, error) {\n\tb := make([]byte, p.width())\n\tp.fill(b, 0)\n\tn, err := w.Write(b)\n\treturn int64(n), err\n}\n\nfunc (p *PingResp) width() int {\n\treturn p.fill(_LEN, 0)\n}\n\nfunc (p *PingResp) fill(b []byte, i int) int {\n\ti += p.fixed.fill(b, i)  // firstByte header\n\ti += vbint(0).fill(b, i) // remaining length none\n\treturn i", "\t\"io\"\n)\n\nfunc NewPingResp() *PingResp {\n\treturn &PingResp{fixed: bits(PINGRESP)}\n}\n\ntype PingResp struct {\n\tfixed bits\n}\n\nfunc (p *PingResp) String() string {\n\treturn headerString(p.fixed, p.width())\n}\n\nfunc (p *PingResp) WriteTo(w io.Writer) (int64, error) {\n\treturn writeHeaderOnly(w, p.fixed)\n}\n\nfunc (p *PingResp) width() int {\n\treturn p.fill(_LEN, 0)\n}\n\nfunc (p *PingResp) fill(b []byte, i int) int {\n\treturn fillHeaderOnly(b, i, p.fixed)"}, {"undefined.go", "\treturn fmt.Sprintf(\"%s %v bytes\",\n\t\tfirstByte(p.fixed).String(), 0,\n\t)", "\treturn headerString(p.fixed, 0)"}}},
+		{Name: "rf8-frame-struct-passed-by-value", Silent: true, Edits: []Edit{{"suback.go", "\tremainingLen := vbint(\n\t\tp.variableHeader(_LEN, 0) + p.payload(_LEN, 0),\n\t)\n\ti += p.fixed.fill(b, i)      // firstByte header\n\ti += remainingLen.fill(b, i) // remaining length\n\ti += p.variableHeader(b, i)\n\ti += p.payload(b, i)\n\n\treturn i\n}\n\nfunc (p *SubAck) variableHeader(b []byte, i int) int {\n\tn := i\n\ti += p.packetID.fill(b, i)\n\ti += vbint(p.properties(_LEN, 0)).fill(b, i)\n\ti += p.properties(b, i)\n\treturn i - n\n}\n\nfunc (p *SubAck) properties(b []byte, i int) int {\n\tn := i\n\tfor id, v := range p.propertyMap() {\n\t\ti += v().fillProp(b, i, id)\n\t}\n\ti += p.UserProperties.properties(b, i)\n\treturn i - n\n}\n\nfunc (p *SubAck) payload(b []byte, i int) int {\n\tn := i\n\tfor j, _ := range p.reasonCodes {\n\t\ti += wuint8(p.reasonCodes[j]).fill(b, i)", "\treturn p.frame().fill(b, i)\n}\n\nfunc (p *SubAck) frame() ackFrame {\n\treturn ackFrame{\n\t\tfixed:        p.fixed,\n\t\tpacketID:     p.packetID,\n\t\treasonString: p.reasonString,\n\t\tuser:         &p.UserProperties,\n\t\treasonCodes:  p.reasonCodes,\n\t}\n}\n\n// ackFrame is the wire form shared by SUBACK and UNSUBACK, they only\n// differ in the first byte. It refers to the fields of the packet\n// and is only used for writing.\ntype ackFrame struct {\n\tfixed        bits\n\tpacketID     wuint16\n\treasonString wstring\n\tuser         *UserProperties\n\treasonCodes  []uint8\n}\n\nfunc (f ackFrame) fill(b []byte, i int) int {\n\tremainingLen := vbint(\n\t\tf.variableHeader(_LEN, 0) + f.payload(_LEN, 0),\n\t)\n\ti += f.fixed.fill(b, i)      // firstByte header\n\ti += remainingLen.fill(b, i) // remaining length\n\ti += f.variableHeader(b, i)\n\ti += f.payload(b, i)\n\n\treturn i\n}\n\nfunc (f ackFrame) variableHeader(b []byte, i int) int {\n\tn := i\n\ti += f.packetID.fill(b, i)\n\ti += vbint(f.properties(_LEN, 0)).fill(b, i)\n\ti += f.properties(b, i)\n\treturn i - n\n}\n\nfunc (f ackFrame) properties(b []byte, i int) int {\n\tn := i\n\ti += f.reasonString.fillProp(b, i, ReasonString)\n\ti += f.user.properties(b, i)\n\treturn i - n\n}\n\nfunc (f ackFrame) payload(b []byte, i int) int {\n\tn := i\n\tfor _, code := range f.reasonCodes {\n\t\ti += wuint8(code).fill(b, i)"}, {"unsuback.go", "// byte. Keep for now.\n\nfunc NewUnsubAck() *UnsubAck {\n\treturn &UnsubAck{fixed: bits(UNSUBACK)}\n}\n\ntype UnsubAck struct {\n\tfixed    bits\n\tpacketID wuint16\n\tUserProperties\n\n\treasonString wstring\n\treasonCodes  []uint8\n}\n\nfunc (p *UnsubAck) String() string {\n\treturn fmt.Sprintf(\"%s p%v %v bytes\",\n\t\tfirstByte(p.fixed).String(),\n\t\tp.packetID,\n\t\tp.width(),\n\t)\n}\n\nfunc (p *UnsubAck) dump(w io.Writer) {\n\tfmt.Fprintf(w, \"PacketID: %v\\n\", p.PacketID())\n\tfmt.Fprintf(w, \"ReasonString: %v\\n\", p.ReasonString())\n\tfmt.Fprintf(w, \"ReasonCodes: %v\\n\", p.ReasonCodes())\n\tp.UserProperties.dump(w)\n}\n\nfunc (p *UnsubAck) SetPacketID(v uint16) { p.packetID = wuint16(v) }\nfunc (p *UnsubAck) PacketID() uint16     { return uint16(p.packetID) }\n\nfunc (p *UnsubAck) SetReasonString(v string) { p.reasonString = wstring(v) }\nfunc (p *UnsubAck) ReasonString() string     { return string(p.reasonString) }\n\nfunc (p *UnsubAck) AddReasonCode(v ReasonCode) {\n\tp.reasonCodes = append(p.reasonCodes, uint8(v))\n}\nfunc (p *UnsubAck) ReasonCodes() []uint8 { return p.reasonCodes }\n\nfunc (p *UnsubAck) WriteTo(w io.Writer) (int64, error) {\n\tb := make([]byte, p.width())\n\tp.fill(b, 0)\n\tn, err := w.Write(b)\n\treturn int64(n), err\n}\n\nfunc (p *UnsubAck) width() int {\n\treturn p.fill(_LEN, 0)\n}\n\nfunc (p *UnsubAck) fill(b []byte, i int) int {\n\tremainingLen := vbint(\n\t\tp.variableHeader(_LEN, 0) + p.payload(_LEN, 0),\n\t)\n\ti += p.fixed.fill(b, i)      // firstByte header\n\ti += remainingLen.fill(b, i) // remaining length\n\ti += p.variableHeader(b, i)\n\ti += p.payload(b, i)\n\n\treturn i\n}\n\nfunc (p *UnsubAck) variableHeader(b []byte, i int) int {\n\tn := i\n\ti += p.packetID.fill(b, i)\n\ti += vbint(p.properties(_LEN, 0)).fill(b, i)\n\ti += p.properties(b, i)\n\treturn i - n\n}\n\nfunc (p *UnsubAck) properties(b []byte, i int) int {\n\tn := i\n\tfor id, v := range p.propertyMap() {\n\t\ti += v().fillProp(b, i, id)\n\t}\n\ti += p.UserProperties.properties(b, i)\n\treturn i - n\n}\n\nfunc (p *UnsubAck) payload(b []byte, i int) int {\n\tn := i\n\tfor j, _ := range p.reasonCodes {\n\t\ti += wuint8(p.reasonCodes[j]).fill(b, i)\n\t}\n\treturn i - n", "// byte, they are written using the same ackFrame.\n\nfunc NewUnsubAck() *UnsubAck {\n\treturn &UnsubAck{fixed: bits(UNSUBACK)}\n}\n\ntype UnsubAck struct {\n\tfixed    bits\n\tpacketID wuint16\n\tUserProperties\n\n\treasonString wstring\n\treasonCodes  []uint8\n}\n\nfunc (p *UnsubAck) String() string {\n\treturn fmt.Sprintf(\"%s p%v %v bytes\",\n\t\tfirstByte(p.fixed).String(),\n\t\tp.packetID,\n\t\tp.width(),\n\t)\n}\n\nfunc (p *UnsubAck) dump(w io.Writer) {\n\tfmt.Fprintf(w, \"PacketID: %v\\n\", p.PacketID())\n\tfmt.Fprintf(w, \"ReasonString: %v\\n\", p.ReasonString())\n\tfmt.Fprintf(w, \"ReasonCodes: %v\\n\", p.ReasonCodes())\n\tp.UserProperties.dump(w)\n}\n\nfunc (p *UnsubAck) SetPacketID(v uint16) { p.packetID = wuint16(v) }\nfunc (p *UnsubAck) PacketID() uint16     { return uint16(p.packetID) }\n\nfunc (p *UnsubAck) SetReasonString(v string) { p.reasonString = wstring(v) }\nfunc (p *UnsubAck) ReasonString() string     { return string(p.reasonString) }\n\nfunc (p *UnsubAck) AddReasonCode(v ReasonCode) {\n\tp.reasonCodes = append(p.reasonCodes, uint8(v))\n}\nfunc (p *UnsubAck) ReasonCodes() []uint8 { return p.reasonCodes }\n\nfunc (p *UnsubAck) WriteTo(w io.Writer) (int64, error) {\n\tb := make([]byte, p.width())\n\tp.fill(b, 0)\n\tn, err := w.Write(b)\n\treturn int64(n), err\n}\n\nfunc (p *UnsubAck) width() int {\n\treturn p.fill(_LEN, 0)\n}\n\nfunc (p *UnsubAck) fill(b []byte, i int) int {\n\treturn p.frame().fill(b, i)\n}\n\nfunc (p *UnsubAck) frame() ackFrame {\n\treturn ackFrame{\n\t\tfixed:        p.fixed,\n\t\tpacketID:     p.packetID,\n\t\treasonString: p.reasonString,\n\t\tuser:         &p.UserProperties,\n\t\treasonCodes:  p.reasonCodes,\n\t}"}}},
 		{Name: "adv5-A3-size-stated-on-one-path-only", Rule: "R10.4", Where: "(*Publish).String", Edits: []Edit{{"publish.go", "\treturn withForm(p, fmt.Sprintf(\"%s p%v %s%s %v bytes\",\n\t\tfirstByte(p.fixed).String(),\n\t\tp.packetID,\n\t\ttopic,\n\t\tfunc() string {\n\t\t\tif len(p.correlationData) == 0 {\n\t\t\t\treturn \"\"\n\t\t\t}\n\t\t\treturn \" \" + string(p.correlationData)\n\t\t}(),\n\t\tp.width(),\n\t))", "\treturn withForm(p, fmt.Sprintf(\"%s p%v %s%s %s\",\n\t\tfirstByte(p.fixed).String(),\n\t\tp.packetID,\n\t\ttopic,\n\t\tfunc() string {\n\t\t\tif len(p.correlationData) == 0 {\n\t\t\t\treturn \"\"\n\t\t\t}\n\t\t\treturn \" \" + string(p.correlationData)\n\t\t}(),\n\t\thumanSize(p.width()),\n\t))\n}\n\n// humanSize renders the size of a packet, large ones in KiB.\nfunc humanSize(n int) string {\n\tif n >= 10*1024 {\n\t\treturn fmt.Sprintf(\"%.1f KiB\", float64(n)/1024)\n\t}\n\treturn fmt.Sprintf(\"%v bytes\", n)"}}},
 		{Name: "adv5-A1-string-cut-by-a-fmt-precision", Rule: "R10.4", Where: "(*Publish).String", Edits: []Edit{{"publish.go", "\treturn withForm(p, fmt.Sprintf(\"%s p%v %s%s %v bytes\",\n\t\tfirstByte(p.fixed).String(),\n\t\tp.packetID,\n\t\ttopic,\n\t\tfunc() string {\n\t\t\tif len(p.correlationData) == 0 {\n\t\t\t\treturn \"\"\n\t\t\t}\n\t\t\treturn \" \" + string(p.correlationData)\n\t\t}(),\n\t\tp.width(),\n\t))", "\tline := fmt.Sprintf(\"%s p%v %s%s %v bytes\",\n\t\tfirstByte(p.fixed).String(),\n\t\tp.packetID,\n\t\ttopic,\n\t\tfunc() string {\n\t\t\tif len(p.correlationData) == 0 {\n\t\t\t\treturn \"\"\n\t\t\t}\n\t\t\treturn \" \" + string(p.correlationData)\n\t\t}(),\n\t\tp.width(),\n\t)\n\t// long topic names or correlation data must not flood a log:\n\t// keep the summary within one line\n\treturn withForm(p, fmt.Sprintf(\"%.120s\", line))"}}},
 		{Name: "rf7-generic-fillprop-helper", Silent: true, Edits: []Edit{{"wiretypes.go", "// firstByte represents the first byte in a control packet.\ntype firstByte byte\n\n// String returns a readable string TYPEFLAGS, e.g. PUBLISH d1-r\nfunc (f firstByte) String() string {\n\tvar sb strings.Builder\n\tsb.WriteString(typeNames[byte(f)&0b1111_0000])\n\tsb.WriteString(\" \")\n\tflags := []byte(\"----\")\n\tif bits(f).Has(DUP) {\n\t\tflags[0] = 'd'\n\t}\n\tswitch {\n\tcase bits(f).Has(QoS3):\n\t\tflags[1] = '!' // malformed\n\t\tflags[2] = '!' // malformed\n\tcase bits(f).Has(QoS1):\n\t\tflags[2] = '1'\n\tcase bits(f).Has(QoS2):\n\t\tflags[1] = '2'\n\t}\n\tif bits(f).Has(RETAIN) {\n\t\tflags[3] = 'r'\n\t}\n\tsb.Write(flags)\n\treturn sb.String()\n}\n\n// https://docs.oasis-open.org/mqtt/mqtt/v5.0/os/mqtt-v5.0-os.html#_Toc3901013\ntype UserProp [2]string\n\nfunc (v UserProp) fillProp(data []byte, i int, id Ident) int {\n\tif len(v[0]) == 0 {\n\t\treturn 0\n\t}\n\tn := i\n\ti += id.fill(data, i)\n\ti += v.fill(data, i)\n\treturn i - n\n}\nfunc (v UserProp) fill(data []byte, i int) int {\n\ti += wstring(v[0]).fill(data, i)\n\t_ = wstring(v[1]).fill(data, i)\n\treturn v.width()\n}\n\nfunc (v *UserProp) UnmarshalBinary(data []byte) error {\n\tvar key wstring\n\tif err := key.UnmarshalBinary(data); err != nil {\n\t\treturn unmarshalErr(v, \"key\", err.(*Malformed))\n\t}\n\tv[0] = string(key)\n\n\ti := len(v[0]) + 2\n\tvar val wstring\n\tif err := val.UnmarshalBinary(data[i:]); err != nil {\n\t\treturn unmarshalErr(v, \"value\", err.(*Malformed))\n\t}\n\tv[1] = string(val)\n\treturn nil\n}\nfunc (v UserProp) String() string {\n\treturn fmt.Sprintf(\"%s:%s\", v[0], v[1])\n}\nfunc (v UserProp) width() int {\n\treturn wstring(v[0]).width() + wstring(v[1]).width()\n}\n\n// https://docs.oasis-open.org/mqtt/mqtt/v5.0/os/mqtt-v5.0-os.html#_Toc3901010\ntype wstring = bindata\n\n// https://docs.oasis-open.org/mqtt/mqtt/v5.0/os/mqtt-v5.0-os.html#_Toc3901012\ntype bindata []byte\n\nfunc (v bindata) fillProp(data []byte, i int, id Ident) int {\n\tif len(v) == 0 {\n\t\treturn 0\n\t}\n\tn := i\n\ti += id.fill(data, i)\n\ti += v.fill(data, i)\n\treturn i - n\n}\nfunc (v bindata) fill(data []byte, i int) int {\n\tif len(data) >= i+v.width() {\n\t\ti += wuint16(len(v)).fill(data, i)\n\t\tcopy(data[i:], []byte(v))\n\t}\n\treturn v.width()\n}\n\nfunc (v *bindata) UnmarshalBinary(data []byte) error {\n\tif len(data) < 2 {\n\t\treturn unmarshalErr(v, \"\", \"missing data\")\n\t}\n\tlength := int(binary.BigEndian.Uint16(data))\n\tif len(data) < length+2 {\n\t\treturn unmarshalErr(v, \"\", \"missing data\")\n\t}\n\tif length == 0 {\n\t\treturn nil\n\t}\n\t*v = make([]byte, length)\n\tcopy(*v, data[2:length+2])\n\treturn nil\n}\n\nfunc (v bindata) width() int {\n\treturn 2 + len(v)\n}\n\ntype rawdata []byte\n\nfunc (v *rawdata) UnmarshalBinary(data []byte) error {\n\t*v = make([]byte, len(data))\n\tcopy(*v, data)\n\treturn nil\n}\nfunc (v rawdata) fill(data []byte, i int) int {\n\tif len(data) >= i+v.width() {\n\t\treturn copy(data[i:], []byte(v))\n\t}\n\treturn v.width()\n}\nfunc (v rawdata) width() int {\n\treturn len(v)\n}\n\n// fillProp is here to fullfill the wireType interface, though it\n// cannot be used as a property as the length is not written. fillProp\n// always panics.\nfunc (v rawdata) fillProp(data []byte, i int, id Ident) int {\n\tpanic(\"cannot use rawdata as property\")\n}\n\n// https://docs.oasis-open.org/mqtt/mqtt/v5.0/os/mqtt-v5.0-os.html#_Toc3901011\ntype vbint uint\n\nfunc (v vbint) fillProp(data []byte, i int, id Ident) int {\n\tif v == 0 {\n\t\treturn 0\n\t}\n\tn := i\n\ti += id.fill(data, i)\n\ti += v.fill(data, i)\n\treturn i - n\n}\n\nfunc (v vbint) fill(data []byte, i int) int {\n\tx := v\n\tn := i\n\tfor {\n\t\tencodedByte := byte(x % 128)\n\t\tx = x / 128\n\t\tif x > 0 {\n\t\t\tencodedByte = encodedByte | 128\n\t\t}\n\t\tif i < len(data) {\n\t\t\tdata[i] = encodedByte\n\t\t}\n\t\ti++\n\t\tif x == 0 {\n\t\t\tbreak\n\t\t}\n\t}\n\treturn i - n\n}\n\nfunc (v vbint) width() int {\n\treturn v.fill(_LEN, 0)\n}\n\nfunc (v *vbint) ReadFrom(r io.Reader) (int64, error) {\n\tvar multiplier uint = 1\n\tvar value uint\n\tdata := make([]byte, 1)\n\tvar i int64\n\tfor {\n\t\tif _, err := io.ReadFull(r, data); err != nil {\n\t\t\treturn i, err\n\t\t}\n\t\ti++\n\t\tencodedByte := data[0]\n\t\tvalue += uint(encodedByte) & uint(127) * multiplier\n\t\tif multiplier > 128*128*128 {\n\t\t\treturn i, unmarshalErr(v, \"\", \"size exceeded\")\n\t\t}\n\t\tif encodedByte&128 == 0 {\n\t\t\tbreak\n\t\t}\n\t\tmultiplier = multiplier * 128\n\t}\n\t*v = vbint(value)\n\treturn i, nil\n}\n\n// UnmarshalBinary data, returns nil or *Malformed error\nfunc (v *vbint) UnmarshalBinary(data []byte) error {\n\tif len(data) == 0 {\n\t\treturn unmarshalErr(v, \"\", \"missing data\")\n\t}\n\tvar multiplier uint = 1\n\tvar value uint\n\tfor _, encodedByte := range data {\n\t\tvalue += uint(encodedByte) & uint(127) * multiplier\n\t\tif multiplier > 128*128*128 {\n\t\t\treturn unmarshalErr(v, \"\", \"size exceeded\")\n\t\t}\n\t\tif encodedByte&128 == 0 {\n\t\t\t*v = vbint(value)\n\t\t\treturn nil\n\t\t}\n\t\tmultiplier = multiplier * 128\n\t}\n\treturn unmarshalErr(v, \"\", \"missing data\")\n}\n\n// wire types\ntype (\n\twuint8 = bits // byte\n)\n\ntype wbool bool\n\nfunc (v wbool) fillProp(data []byte, i int, id Ident) int {\n\tif !v {\n\t\treturn 0\n\t}\n\tn := i\n\ti += id.fill(data, i)\n\ti += v.fill(data, i)\n\treturn i - n\n}\nfunc (v wbool) fill(data []byte, i int) int {\n\tif len(data) >= i+1 {\n\t\tif v {\n\t\t\tdata[i] = 0x01\n\t\t} else {\n\t\t\tdata[i] = 0x00\n\t\t}\n\t}\n\treturn 1\n}\nfunc (v *wbool) UnmarshalBinary(data []byte) error {\n\tif len(data) < 1 {\n\t\treturn ErrMissingData\n\t}\n\tswitch data[0] {\n\tcase 0:\n\t\t*v = wbool(false)\n\tcase 1:\n\t\t*v = wbool(true)\n\tdefault:\n\t\treturn fmt.Errorf(\"malformed bool\")\n\t}\n\treturn nil\n}\nfunc (v wbool) width() int { return 1 }\n\n// https://docs.oasis-open.org/mqtt/mqtt/v5.0/os/mqtt-v5.0-os.html#_Toc3901007\ntype bits byte\n\nfunc (v bits) Has(b byte) bool { return byte(v)&b == b }\n\nfunc (v bits) fillProp(data []byte, i int, id Ident) int {\n\tif v == 0 {\n\t\treturn 0\n\t}\n\tn := i\n\ti += id.fill(data, i)\n\ti += v.fill(data, i)\n\treturn i - n\n}\n\nfunc (v bits) fill(data []byte, i int) int {\n\tif len(data) >= i+1 {\n\t\tdata[i] = byte(v)\n\t}\n\treturn 1\n}\n\n// fillOpt fills the bits if > 0\nfunc (v bits) fillOpt(data []byte, i int) int {\n\tif v == 0 {\n\t\treturn 0\n\t}\n\treturn v.fill(data, i)\n}\n\nfunc (v *bits) ReadFrom(r io.Reader) (int64, error) {\n\tdata := make([]byte, 1)\n\tif n, err := io.ReadFull(r, data); err != nil {\n\t\treturn int64(n), err\n\t}\n\treturn 1, v.UnmarshalBinary(data)\n}\nfunc (v *bits) UnmarshalBinary(data []byte) error {\n\tif len(data) < 1 {\n\t\treturn ErrMissingData\n\t}\n\t*v = bits(data[0])\n\treturn nil\n}\nfunc (v bits) width() int { return 1 }\nfunc (v *bits) toggle(flag byte, on bool) {\n\tif on {\n\t\t*v = *v | bits(flag)\n\t\treturn\n\t}\n\t*v = *v & bits(^flag)\n}\n\n// https://docs.oasis-open.org/mqtt/mqtt/v5.0/os/mqtt-v5.0-os.html#_Toc3901008\ntype wuint16 uint16\n\nfunc (v wuint16) fillProp(data []byte, i int, id Ident) int {\n\tif v == 0 {\n\t\treturn 0\n\t}\n\tn := i\n\ti += id.fill(data, i)\n\ti += v.fill(data, i)\n\treturn i - n\n}\n\nfunc (v wuint16) fill(data []byte, i int) int {\n\tif len(data) >= i+2 {\n\t\tbinary.BigEndian.PutUint16(data[i:], uint16(v))\n\t}\n\treturn 2\n}\n\nfunc (v *wuint16) UnmarshalBinary(data []byte) error {\n\tif len(data) < 2 {\n\t\treturn ErrMissingData\n\t}\n\t*v = wuint16(binary.BigEndian.Uint16(data))\n\treturn nil\n}\n\nfunc (v wuint16) width() int { return 2 }\n\n// https://docs.oasis-open.org/mqtt/mqtt/v5.0/os/mqtt-v5.0-os.html#_Toc3901009\ntype wuint32 uint32\n\nfunc (v wuint32) fillProp(data []byte, i int, id Ident) int {\n\tif v == 0 {\n\t\treturn 0\n\t}\n\tn := i\n\ti += id.fill(data, i)\n\ti += v.fill(data, i)\n\treturn i - n", "// filler is the part of a wireType that is needed for writing a\n// value, it's implemented by the value types and not only the pointers.\ntype filler interface {\n\tfill(buf []byte, i int) int\n}\n\n// fillPropOf writes the identifier followed by the value at position\n// i and returns the number of bytes that make up the property.  Each\n// type decides on its own if the value is empty and should be left\n// out, before calling this func.\nfunc fillPropOf[T filler](v T, data []byte, i int, id Ident) int {\n\tstart := i\n\ti += id.fill(data, i)\n\ti += v.fill(data, i)\n\treturn i - start\n}\n\n// firstByte represents the first byte in a control packet.\ntype firstByte byte\n\n// String returns a readable string TYPEFLAGS, e.g. PUBLISH d1-r\nfunc (f firstByte) String() string {\n\tvar sb strings.Builder\n\tsb.WriteString(typeNames[byte(f)&0b1111_0000])\n\tsb.WriteString(\" \")\n\tflags := []byte(\"----\")\n\tif bits(f).Has(DUP) {\n\t\tflags[0] = 'd'\n\t}\n\tswitch {\n\tcase bits(f).Has(QoS3):\n\t\tflags[1] = '!' // malformed\n\t\tflags[2] = '!' // malformed\n\tcase bits(f).Has(QoS1):\n\t\tflags[2] = '1'\n\tcase bits(f).Has(QoS2):\n\t\tflags[1] = '2'\n\t}\n\tif bits(f).Has(RETAIN) {\n\t\tflags[3] = 'r'\n\t}\n\tsb.Write(flags)\n\treturn sb.String()\n}\n\n// https://docs.oasis-open.org/mqtt/mqtt/v5.0/os/mqtt-v5.0-os.html#_Toc3901013\ntype UserProp [2]string\n\nfunc (v UserProp) fillProp(data []byte, i int, id Ident) int {\n\tif len(v[0]) == 0 {\n\t\treturn 0\n\t}\n\treturn fillPropOf(v, data, i, id)\n}\nfunc (v UserProp) fill(data []byte, i int) int {\n\ti += wstring(v[0]).fill(data, i)\n\t_ = wstring(v[1]).fill(data, i)\n\treturn v.width()\n}\n\nfunc (v *UserProp) UnmarshalBinary(data []byte) error {\n\tvar key wstring\n\tif err := key.UnmarshalBinary(data); err != nil {\n\t\treturn unmarshalErr(v, \"key\", err.(*Malformed))\n\t}\n\tv[0] = string(key)\n\n\ti := len(v[0]) + 2\n\tvar val wstring\n\tif err := val.UnmarshalBinary(data[i:]); err != nil {\n\t\treturn unmarshalErr(v, \"value\", err.(*Malformed))\n\t}\n\tv[1] = string(val)\n\treturn nil\n}\nfunc (v UserProp) String() string {\n\treturn fmt.Sprintf(\"%s:%s\", v[0], v[1])\n}\nfunc (v UserProp) width() int {\n\treturn wstring(v[0]).width() + wstring(v[1]).width()\n}\n\n// https://docs.oasis-open.org/mqtt/mqtt/v5.0/os/mqtt-v5.0-os.html#_Toc3901010\ntype wstring = bindata\n\n// https://docs.oasis-open.org/mqtt/mqtt/v5.0/os/mqtt-v5.0-os.html#_Toc3901012\ntype bindata []byte\n\nfunc (v bindata) fillProp(data []byte, i int, id Ident) int {\n\tif len(v) == 0 {\n\t\treturn 0\n\t}\n\treturn fillPropOf(v, data, i, id)\n}\nfunc (v bindata) fill(data []byte, i int) int {\n\tif len(data) >= i+v.width() {\n\t\ti += wuint16(len(v)).fill(data, i)\n\t\tcopy(data[i:], []byte(v))\n\t}\n\treturn v.width()\n}\n\nfunc (v *bindata) UnmarshalBinary(data []byte) error {\n\tif len(data) < 2 {\n\t\treturn unmarshalErr(v, \"\", \"missing data\")\n\t}\n\tlength := int(binary.BigEndian.Uint16(data))\n\tif len(data) < length+2 {\n\t\treturn unmarshalErr(v, \"\", \"missing data\")\n\t}\n\tif length == 0 {\n\t\treturn nil\n\t}\n\t*v = make([]byte, length)\n\tcopy(*v, data[2:length+2])\n\treturn nil\n}\n\nfunc (v bindata) width() int {\n\treturn 2 + len(v)\n}\n\ntype rawdata []byte\n\nfunc (v *rawdata) UnmarshalBinary(data []byte) error {\n\t*v = make([]byte, len(data))\n\tcopy(*v, data)\n\treturn nil\n}\nfunc (v rawdata) fill(data []byte, i int) int {\n\tif len(data) >= i+v.width() {\n\t\treturn copy(data[i:], []byte(v))\n\t}\n\treturn v.width()\n}\nfunc (v rawdata) width() int {\n\treturn len(v)\n}\n\n// fillProp is here to fullfill the wireType interface, though it\n// cannot be used as a property as the length is not written. fillProp\n// always panics.\nfunc (v rawdata) fillProp(data []byte, i int, id Ident) int {\n\tpanic(\"cannot use rawdata as property\")\n}\n\n// https://docs.oasis-open.org/mqtt/mqtt/v5.0/os/mqtt-v5.0-os.html#_Toc3901011\ntype vbint uint\n\nfunc (v vbint) fillProp(data []byte, i int, id Ident) int {\n\tif v == 0 {\n\t\treturn 0\n\t}\n\treturn fillPropOf(v, data, i, id)\n}\n\nfunc (v vbint) fill(data []byte, i int) int {\n\tx := v\n\tn := i\n\tfor {\n\t\tencodedByte := byte(x % 128)\n\t\tx = x / 128\n\t\tif x > 0 {\n\t\t\tencodedByte = encodedByte | 128\n\t\t}\n\t\tif i < len(data) {\n\t\t\tdata[i] = encodedByte\n\t\t}\n\t\ti++\n\t\tif x == 0 {\n\t\t\tbreak\n\t\t}\n\t}\n\treturn i - n\n}\n\nfunc (v vbint) width() int {\n\treturn v.fill(_LEN, 0)\n}\n\nfunc (v *vbint) ReadFrom(r io.Reader) (int64, error) {\n\tvar multiplier uint = 1\n\tvar value uint\n\tdata := make([]byte, 1)\n\tvar i int64\n\tfor {\n\t\tif _, err := io.ReadFull(r, data); err != nil {\n\t\t\treturn i, err\n\t\t}\n\t\ti++\n\t\tencodedByte := data[0]\n\t\tvalue += uint(encodedByte) & uint(127) * multiplier\n\t\tif multiplier > 128*128*128 {\n\t\t\treturn i, unmarshalErr(v, \"\", \"size exceeded\")\n\t\t}\n\t\tif encodedByte&128 == 0 {\n\t\t\tbreak\n\t\t}\n\t\tmultiplier = multiplier * 128\n\t}\n\t*v = vbint(value)\n\treturn i, nil\n}\n\n// UnmarshalBinary data, returns nil or *Malformed error\nfunc (v *vbint) UnmarshalBinary(data []byte) error {\n\tif len(data) == 0 {\n\t\treturn unmarshalErr(v, \"\", \"missing data\")\n\t}\n\tvar multiplier uint = 1\n\tvar value uint\n\tfor _, encodedByte := range data {\n\t\tvalue += uint(encodedByte) & uint(127) * multiplier\n\t\tif multiplier > 128*128*128 {\n\t\t\treturn unmarshalErr(v, \"\", \"size exceeded\")\n\t\t}\n\t\tif encodedByte&128 == 0 {\n\t\t\t*v = vbint(value)\n\t\t\treturn nil\n\t\t}\n\t\tmultiplier = multiplier * 128\n\t}\n\treturn unmarshalErr(v, \"\", \"missing data\")\n}\n\n// wire types\ntype (\n\twuint8 = bits // byte\n)\n\ntype wbool bool\n\nfunc (v wbool) fillProp(data []byte, i int, id Ident) int {\n\tif !v {\n\t\treturn 0\n\t}\n\treturn fillPropOf(v, data, i, id)\n}\nfunc (v wbool) fill(data []byte, i int) int {\n\tif len(data) >= i+1 {\n\t\tif v {\n\t\t\tdata[i] = 0x01\n\t\t} else {\n\t\t\tdata[i] = 0x00\n\t\t}\n\t}\n\treturn 1\n}\nfunc (v *wbool) UnmarshalBinary(data []byte) error {\n\tif len(data) < 1 {\n\t\treturn ErrMissingData\n\t}\n\tswitch data[0] {\n\tcase 0:\n\t\t*v = wbool(false)\n\tcase 1:\n\t\t*v = wbool(true)\n\tdefault:\n\t\treturn fmt.Errorf(\"malformed bool\")\n\t}\n\treturn nil\n}\nfunc (v wbool) width() int { return 1 }\n\n// https://docs.oasis-open.org/mqtt/mqtt/v5.0/os/mqtt-v5.0-os.html#_Toc3901007\ntype bits byte\n\nfunc (v bits) Has(b byte) bool { return byte(v)&b == b }\n\nfunc (v bits) fillProp(data []byte, i int, id Ident) int {\n\tif v == 0 {\n\t\treturn 0\n\t}\n\treturn fillPropOf(v, data, i, id)\n}\n\nfunc (v bits) fill(data []byte, i int) int {\n\tif len(data) >= i+1 {\n\t\tdata[i] = byte(v)\n\t}\n\treturn 1\n}\n\n// fillOpt fills the bits if > 0\nfunc (v bits) fillOpt(data []byte, i int) int {\n\tif v == 0 {\n\t\treturn 0\n\t}\n\treturn v.fill(data, i)\n}\n\nfunc (v *bits) ReadFrom(r io.Reader) (int64, error) {\n\tdata := make([]byte, 1)\n\tif n, err := io.ReadFull(r, data); err != nil {\n\t\treturn int64(n), err\n\t}\n\treturn 1, v.UnmarshalBinary(data)\n}\nfunc (v *bits) UnmarshalBinary(data []byte) error {\n\tif len(data) < 1 {\n\t\treturn ErrMissingData\n\t}\n\t*v = bits(data[0])\n\treturn nil\n}\nfunc (v bits) width() int { return 1 }\nfunc (v *bits) toggle(flag byte, on bool) {\n\tif on {\n\t\t*v = *v | bits(flag)\n\t\treturn\n\t}\n\t*v = *v & bits(^flag)\n}\n\n// https://docs.oasis-open.org/mqtt/mqtt/v5.0/os/mqtt-v5.0-os.html#_Toc3901008\ntype wuint16 uint16\n\nfunc (v wuint16) fillProp(data []byte, i int, id Ident) int {\n\tif v == 0 {\n\t\treturn 0\n\t}\n\treturn fillPropOf(v, data, i, id)\n}\n\nfunc (v wuint16) fill(data []byte, i int) int {\n\tif len(data) >= i+2 {\n\t\tbinary.BigEndian.PutUint16(data[i:], uint16(v))\n\t}\n\treturn 2\n}\n\nfunc (v *wuint16) UnmarshalBinary(data []byte) error {\n\tif len(data) < 2 {\n\t\treturn ErrMissingData\n\t}\n\t*v = wuint16(binary.BigEndian.Uint16(data))\n\treturn nil\n}\n\nfunc (v wuint16) width() int { return 2 }\n\n// https://docs.oasis-open.org/mqtt/mqtt/v5.0/os/mqtt-v5.0-os.html#_Toc3901009\ntype wuint32 uint32\n\nfunc (v wuint32) fillProp(data []byte, i int, id Ident) int {\n\tif v == 0 {\n\t\treturn 0\n\t}\n\treturn fillPropOf(v, data, i, id)"}}},
@@ -216,6 +220,128 @@ func checkC10(p *Prog, c *Check) {
 
 // checkWriteTo verifies R10.1 (or R10.5) and returns the fill function used.
 func checkWriteTo(p *Prog, c *Check, fn *ssa.Function) (*ssa.Function, bool) {
+	tmp := NewCheck(c.ID, p)
+	f, refuses := checkWriteToShape(p, tmp, fn)
+	merge := func() {
+		c.Obls = append(c.Obls, tmp.Obls...)
+		for k := range tmp.Funcs {
+			c.Funcs[k] = true
+		}
+	}
+	if len(tmp.Failing()) == 0 {
+		merge()
+		return f, refuses
+	}
+	// not one of the recognised shapes (the buffer made and written by a helper that is handed a part of the packet):
+	// WriteTo itself is evaluated on abstract packet states with a recording writer and compared with the encoder
+	if enc, how := p.writeToByEvaluation(fn); enc != nil {
+		c.OK("R10.1", qname(fn), p.Pos(fn.Pos()), how)
+		return enc, false
+	}
+	merge()
+	return f, refuses
+}
+
+// writeToByEvaluation: on every basic abstract state of the packet type (none, all setters, the variant values, with
+// and without a will, lengths at 128 and 16 384) WriteTo makes exactly one Write, of one whole buffer, into which the
+// wire primitives have emitted exactly the encoder's event sequence for that state, and returns (len, nil) of it.
+// Returns the type's encoder and a description, or nil.
+func (p *Prog) writeToByEvaluation(wt *ssa.Function) (*ssa.Function, string) {
+	if wt == nil || wt.Signature.Recv() == nil || len(wt.Params) != 2 {
+		return nil, ""
+	}
+	nt := namedOf(wt.Signature.Recv().Type())
+	if nt == nil {
+		return nil, ""
+	}
+	tn := nt.Obj().Name()
+	fill := p.Method(tn, "fill")
+	if fill == nil {
+		return nil, ""
+	}
+	norm := func(e layoutEvent) string {
+		v := e.Val
+		val := ""
+		switch v.k {
+		case 'i':
+			val = fmt.Sprint(v.i)
+		case 'b':
+			val = fmt.Sprint(v.b)
+		case 's':
+			val = fmt.Sprintf("len=%d %s+%d", v.i, v.addr, v.off)
+		}
+		return fmt.Sprintf("%s %s(%s) id=%#02x width=%d src=%s %s", e.Op, e.Wire, e.Kind, e.ID, e.Width, e.Src, val)
+	}
+	// the states C10 compares size methods on: every abstract state (values outside MQTT's ranges included) and the
+	// boundary-targeted ones, steered by the constants of whatever WriteTo calls
+	var extra []*ssa.Function
+	for g := range p.Reach([]*ssa.Function{wt}) {
+		if g != wt && g != fill && p.inMQ(g) && len(g.Blocks) > 0 && !isFillFamily(g) {
+			extra = append(extra, g)
+		}
+	}
+	sort.Slice(extra, func(a, b int) bool { return qname(extra[a]) < qname(extra[b]) })
+	if len(extra) > 6 {
+		extra = extra[:6]
+	}
+	var states []*packetState
+	for _, sp := range p.c10Specs(tn) {
+		st, _ := p.c10State(tn, sp)
+		if st == nil {
+			return nil, ""
+		}
+		states = append(states, st)
+	}
+	for _, ts := range p.targetedStates(tn, fill, extra...) {
+		states = append(states, ts.st)
+	}
+	n := 0
+	for _, st := range states {
+		want, total, why := p.encoderTrace(st, fill)
+		if why != "" {
+			return nil, ""
+		}
+		evs, bufs, rs, writes, why := p.traceRun(st, wt, []sv{{k: 'p', addr: st.Recv}, {k: 'I', addr: "WRITER"}}, true)
+		if why != "" || len(writes) != 1 || len(rs) != 2 {
+			return nil, ""
+		}
+		w := writes[0]
+		if w.k != 's' || w.addr == "" || w.off != 0 || w.i != total {
+			return nil, ""
+		}
+		var got []layoutEvent
+		for i, e := range evs {
+			if bufs[i] == w.addr {
+				got = append(got, e)
+			}
+		}
+		if len(got) != len(want) {
+			return nil, ""
+		}
+		for i := range got {
+			if norm(got[i]) != norm(want[i]) {
+				return nil, ""
+			}
+		}
+		if rs[0].k != 'i' || rs[0].i != total || rs[1].k != 'z' {
+			return nil, ""
+		}
+		// a writer that takes one byte and fails: WriteTo hands back that count and that error, after the one Write
+		p.cache["writefails"] = true
+		_, _, rs2, writes2, why2 := p.traceRun(st, wt, []sv{{k: 'p', addr: st.Recv}, {k: 'I', addr: "WRITER"}}, true)
+		delete(p.cache, "writefails")
+		if why2 != "" || len(writes2) != 1 || len(rs2) != 2 || rs2[0].k != 'i' || rs2[0].i != 1 || rs2[1].k != 'I' || rs2[1].addr != "WERR" {
+			return nil, ""
+		}
+		n++
+	}
+	if n == 0 {
+		return nil, ""
+	}
+	return fill, fmt.Sprintf("evaluated with a recording writer on %d abstract packet states: one Write of one whole buffer holding exactly what %s emits for the state; the byte count and error of that Write are returned", n, qname(fill))
+}
+
+func checkWriteToShape(p *Prog, c *Check, fn *ssa.Function) (*ssa.Function, bool) {
 	cons := qname(fn)
 	pos := p.Pos(fn.Pos())
 	var w *ssa.Parameter
